@@ -279,11 +279,17 @@ def r4(c):
     app = [x for x in calls_in(fn) if isinstance(x.func, ast.Attribute) and x.func.attr == "append" and "children" in norm(x.func.value)]
     ok = bool(app)
     if ok:
-        f = gm.formula(app[0], G.GuardEnv(rename=lambda s: s.replace('"', "'")))
+        chal = {n.targets[0].id for n in walk_no_nested(fn) if isinstance(n, ast.Assign) and isinstance(n.targets[0], ast.Name) and norm(n.value).replace('"', "'") == "attrs['children']"}
+        f = gm.formula(app[0], G.GuardEnv(rename=lambda s: "attrs['children']" if s in chal else s.replace('"', "'")))
         ok = G.implies(G.And(G.Atom("rule_id in merged"), G.Atom("attrs['children']")), f)
     c.check("C06.R4", ok, repo.loc(am, app[0] if app else fn), "_merge_toplevel/children", "children trees of a repeated row are not all appended", key_text="children")
-    first = [n for n in walk_no_nested(fn) if isinstance(n, ast.Assign) and norm(n.targets[0]).replace('"', "'") == "merged[rule_id]['children']"]
-    ok = bool(first) and isinstance(first[0].value, ast.IfExp) and isinstance(first[0].value.body, ast.List) and norm(first[0].value.body.elts[0]).replace('"', "'") == "attrs['children']"
+    pv4 = Provenance(fn)
+    stored_as_is = any(isinstance(n, ast.Assign) and norm(n.targets[0]) == "merged[rule_id]" and norm(n.value) == "attrs" for n in walk_no_nested(fn))
+    first = [n for n in walk_no_nested(fn) if isinstance(n, ast.Assign) and (norm(n.targets[0]).replace('"', "'") == "merged[rule_id]['children']"
+                                                                              or (stored_as_is and norm(n.targets[0]).replace('"', "'") == "attrs['children']"))]
+    ok = bool(first) and isinstance(first[0].value, ast.IfExp) and isinstance(first[0].value.body, ast.List) and len(first[0].value.body.elts) == 1 \
+        and norm(pv4.resolve_alias(first[0].value.body.elts[0])).replace('"', "'") == "attrs['children']" \
+        and norm(pv4.resolve_alias(first[0].value.test)).replace('"', "'") == "attrs['children']" and isinstance(first[0].value.orelse, ast.List) and not first[0].value.orelse.elts
     c.check("C06.R4", ok, repo.loc(am, first[0] if first else fn), "_merge_toplevel/first-children", "children of the first occurrence are not kept", key_text="first-children")
 
 
@@ -367,7 +373,10 @@ def r6(c):
     if len(apps) != 1:
         raise AnchorError("_find_acl_matches: collection of the candidates not found")
     loops = [l for l in gm.in_loop(apps[0]) if isinstance(l, ast.For)]
-    kinds = [i for i, l in enumerate(loops) if isinstance(l.iter, (ast.List, ast.Tuple)) and [getattr(e, "value", None) for e in l.iter.elts] == ["direct_regexp", "reverse_regexp"]]
+    def _first(e):
+        # the kind itself, or a record that starts with it (`("direct_regexp", False)`)
+        return e.value if isinstance(e, ast.Constant) else (_first(e.elts[0]) if isinstance(e, (ast.Tuple, ast.List)) and e.elts else None)
+    kinds = [i for i, l in enumerate(loops) if isinstance(l.iter, (ast.List, ast.Tuple)) and [_first(e) for e in l.iter.elts] == ["direct_regexp", "reverse_regexp"]]
     ruleloops = [i for i, l in enumerate(loops) if over_rules(l)]
     # a sort key that itself separates direct from reverse matches makes the collection order irrelevant
     sorts = [x for x in calls_in(fa) if isinstance(x.func, ast.Attribute) and x.func.attr == "sort" or call_name(x) == "sorted"]
